@@ -96,8 +96,53 @@ func claimFaults(kind string) func(*fam) {
 	}
 }
 
+// C12 directed: the reconcile works on a copy of the set that is one write behind, the first status
+// write conflicts, the informer catches up, the retry is accepted: it must carry the computed status.
+func staleStatusScenario(pol asv1.PodManagementPolicyType, edit string) func(*fam) {
+	return func(f *fam) {
+		w, r := f.w, f.r
+		r.Sets = []string{"web"}
+		p := int32(0)
+		w.Srv.Seed(simapi.Sets, world.NewSet(world.SetOpts{Name: "web", Replicas: 3, Policy: pol, Partition: &p, HistLimit: 2}))
+		r.Trace = append(r.Trace, "directed stale-status scenario: "+edit)
+		if cr := r.Calm(1); !cr.Converged {
+			f.res.Inconclusive = append(f.res.Inconclusive, "stale-status scenario did not reach its start state")
+			return
+		}
+		// somebody touches the set (and possibly its spec); the set cache does not see it yet
+		w.EditSet("web", func(s *asv1.StatefulSet) {
+			if s.Labels == nil {
+				s.Labels = map[string]string{}
+			}
+			s.Labels["touched"] = "1"
+			if edit == "generation" {
+				s.Spec.Replicas = world.I32(4)
+			}
+		})
+		// pods change and the pod cache sees it: the status must be rewritten
+		w.Kubelet("web-1", "unready")
+		w.Deliver(simapi.Pods, -1)
+		w.CatchUp = true
+		rec := r.Reconcile("web")
+		w.CatchUp = false
+		n := 0
+		for _, c := range rec.Calls {
+			if c.Sub == "status" {
+				n++
+			}
+		}
+		if n >= 2 {
+			f.st.Inc("status_conflict_then_retry_scenarios")
+		}
+		w.DeliverAll()
+		r.Calm(1)
+	}
+}
+
 // C08 directed: a pre-existing revision with the name the controller is about to choose.
-func collisionScenario(sameData bool) func(*fam) {
+func collisionScenario(sameData bool) func(*fam) { return collisionScenario2(sameData, false, false) }
+
+func collisionScenario2(sameData, owned, listed bool) func(*fam) {
 	return func(f *fam) {
 		w, r := f.w, f.r
 		r.Sets = []string{"web"}
@@ -122,6 +167,12 @@ func collisionScenario(sameData bool) func(*fam) {
 		r.Trace = append(r.Trace, fmt.Sprintf("directed collision: pre-existing revision %s, same data=%v", probe.Name, sameData))
 		mk()
 		squat := &appsv1.ControllerRevision{ObjectMeta: metav1.ObjectMeta{Name: probe.Name, Namespace: world.NS, Labels: map[string]string{"unrelated": "x"}}, Revision: 7}
+		if listed {
+			squat.Labels = map[string]string{"app": "web"}
+		}
+		if owned {
+			squat.OwnerReferences = []metav1.OwnerReference{*world.SetOwnerRef(w.GetSet("web"))}
+		}
 		if sameData {
 			squat.Data = runtime.RawExtension{Raw: append([]byte(nil), probe.Data.Raw...)}
 		} else {
@@ -149,6 +200,17 @@ func collisionScenario(sameData bool) func(*fam) {
 				f.report(mon.V("C08", "collision-name-reused", "after a collision with different data status.updateRevision=%q", set.Status.UpdateRevision))
 			}
 			f.st.Inc("collision_scenarios_different_data")
+			// follow-up: with the collision count changed, a rollback must still re-use the recorded
+			// revisions and an unchanged template must not add one (the per-reconcile monitor judges)
+			for _, v := range []int{2, 1, 2, 1} {
+				w.EditSet("web", func(s *asv1.StatefulSet) { s.Spec.Template = world.Template(s.Spec.Selector.MatchLabels, v) })
+				w.DeliverAll()
+				r.Reconcile("web")
+				w.DeliverAll()
+				r.Reconcile("web")
+				w.DeliverAll()
+			}
+			f.st.Inc("rollbacks_after_collision")
 		} else {
 			f.st.Inc("collision_scenarios_same_data")
 		}
@@ -161,5 +223,8 @@ func init() {
 		claimHistory(asv1.OrderedReadyPodManagement, "db-1", 2), claimHistory(asv1.ParallelPodManagement, "a-0", 1),
 		claimFaults("500"), claimFaults("exists"), claimFaults("timeout"),
 	}
-	directedC08 = []func(*fam){collisionScenario(false), collisionScenario(true), collisionScenario(false), collisionScenario(true)}
+	directedC08 = []func(*fam){collisionScenario(false), collisionScenario(true),
+		collisionScenario2(false, true, true), collisionScenario2(false, true, false), collisionScenario2(false, false, true), collisionScenario2(true, true, true)}
+	directedC12 = []func(*fam){staleStatusScenario(asv1.ParallelPodManagement, "labels"), staleStatusScenario(asv1.OrderedReadyPodManagement, "labels"),
+		staleStatusScenario(asv1.ParallelPodManagement, "generation"), staleStatusScenario(asv1.OrderedReadyPodManagement, "generation")}
 }
